@@ -606,7 +606,9 @@ func (x *Exec) mergoDeep(st *State, dst Addr, src Val, t types.Type, override bo
 				// both non-nil: merge the pointees
 				g2 := And(guard, Not(srcNil), Not(dstNil))
 				if g2.S != "false" {
+					st.guarded++
 					x.mergoDeep(st, ObjAddr{dref, u.Elem()}, st.loadAt(ObjAddr{sref, u.Elem()}, u.Elem()), u.Elem(), override, g2, depth+1)
+					st.guarded--
 				}
 			}
 		}
